@@ -30,6 +30,8 @@ REPLAY_DOC = {
     "tunfail": "scenario that must hold: a fatal TUN read error under a running device; device.Wait() fires, every later call returns, bind closed, goroutines gone",
     "upkey": "Up (peers.RLock in upLocked, keepalive -> CreateMessageInitiation -> staticIdentity.RLock) vs direct device.SetPrivateKey (staticIdentity.Lock -> peers.Lock); Proofs.up_keepalive_vs_direct_setprivatekey_deadlocks",
 }
+RUN_THEOREMS = ["Run.code_edges_minus_listed_inversions_climb", "Run.no_new_same_class_nesting",
+                "Run.programs_within_code_edges_never_deadlock", "Run.model_minus_inversions_within_code_edges"]
 K_NAMES = ["bind-log(observed Open/Close/Send + call log |= Automaton.holdsb, shape = Automaton.closeopenb)",
            "no-hang(every API call returns; watchdog with hang signature)",
            "no-race(-race build of the harness, GORACE logs)",
@@ -44,6 +46,121 @@ RULE = ("one round = a fresh device (sim bind/tun, 3 ref peers) driven by N conc
         "non-trivial = the round's trace has >= 2 bind opens and >= 1 quiet window after a clean Down (decided inside Coq by Check.nontrivial); "
         "distinct by hash of the plan")
 
+
+
+CLASS_NAMES = ["state", "ipc", "peers", "pst", "trun", "net", "si", "hs", "kp", "itab", "ep", "aip", "tmod", "cc", "cg"]
+# witness function -> plan operations that run it (for the directed search)
+FOCUS_MAP = [("BindUpdate", ["bindupdate", "set_port"]), ("BindSetMark", ["set_fwmark"]), ("SetPrivateKey", ["set_key"]),
+             ("RemoveAllPeers", ["set_replace_peers"]), ("RemovePeer", ["set_remove"]), ("removePeerLocked", ["set_remove"]),
+             ("NewPeer", ["set_add"]), ("handlePublicKeyLine", ["set_add"]), ("handlePeerLine", ["set_endpoint", "set_keepalive", "set_add"]),
+             ("handlePostConfig", ["set_add", "set_keepalive"]), ("IpcGetOperation", ["get"]), ("IpcSetOperation", ["set_add", "set_slow"]),
+             ("upLocked", ["up"]), ("changeState", ["up", "down"]), ("Device.Up", ["up"]), ("downLocked", ["down"]), ("Device.Down", ["down"]),
+             ("Device.Close", ["close"]), ("Peer.Stop", ["down", "set_remove"]), ("Peer.Start", ["up", "set_add"]),
+             ("Timer", ["set_keepalive", "tunburst"]), ("expired", ["set_keepalive", "tunburst"]), ("Routine", ["tunburst"]),
+             ("Send", ["tunburst", "set_keepalive"]), ("Consume", ["tunburst"]), ("Create", ["tunburst"])]
+
+# the functions in which each listed inversion occurs (E1-E6); a listed class pair at a NEW site is a new inversion
+KNOWN_SITES = {(5, 2): {"Device.BindSetMark", "Device.BindUpdate", "Device.IpcGetOperation"},
+               (6, 2): {"Device.ConsumeMessageInitiation", "Device.IpcGetOperation", "Device.NewPeer", "Device.SetPrivateKey"},
+               (6, 3): {"Device.SetPrivateKey"}, (6, 4): {"Device.SetPrivateKey"}, (6, 5): {"Device.SetPrivateKey"},
+               (7, 6): {"Device.ConsumeMessageResponse"}, (6, 6): {"Device.SetPrivateKey"}}
+
+RUN_V = """From WG Require Import Base.Prelude Lifecycle.Locks Lifecycle.LockProofs Lifecycle.Edges Lifecycle.EdgeProofs Lifecycle.Proofs Lifecycle.EdgeCheck Gen.LockEdges.
+Definition new_inv := Eval vm_compute in (new_inversions code_edges). Print new_inv.
+Definition new_self := Eval vm_compute in (new_self_edges code_self_edges). Print new_self.
+Definition gone := Eval vm_compute in (gone_inversions code_edges). Print gone.
+Definition model_extra := Eval vm_compute in (model_not_in_code code_edges code_self_edges). Print model_extra.
+Definition code_extra := Eval vm_compute in (code_not_in_model code_edges). Print code_extra.
+(* the obligations proper: they fail to check when the source has a new inversion *)
+Theorem code_edges_minus_listed_inversions_climb : edges_climb rank (code_minus_inversions code_edges) = true.
+Proof. vm_compute. reflexivity. Qed.
+Theorem no_new_same_class_nesting : new_self_edges code_self_edges = [].
+Proof. vm_compute. reflexivity. Qed.
+Theorem programs_within_code_edges_never_deadlock : forall ps,
+  wf ps = true -> ranks_positive rank ps = true ->
+  edges_incl (all_edges ps) (code_minus_inversions code_edges) = true -> never_deadlocks ps.
+Proof. intros ps H1 H2 H3. exact (programs_within_edges_never_deadlock rank ps _ H1 H2 H3 code_edges_minus_listed_inversions_climb). Qed.
+Theorem model_minus_inversions_within_code_edges :
+  wf (device_programs false) && ranks_positive rank (device_programs false)
+  && edges_incl (all_edges (device_programs false)) (code_minus_inversions code_edges) = true.
+Proof. vm_compute. reflexivity. Qed.
+Print Assumptions programs_within_code_edges_never_deadlock.
+"""
+
+
+def _pairs(text):
+    return [tuple(int(x) for x in m) for m in re.findall(r'\((\d+), (\d+)\)', text)]
+
+
+def lock_edges():
+    """Extract the lock-order edges from the SOURCE of the tree under test, regenerate Gen/LockEdges.v,
+    and check them against the rank / the listed inversions / the model inside Coq."""
+    res = {"ok": False, "new": [], "new_self": [], "gone": [], "model_extra": [], "code_extra": [], "error": None}
+    d = os.path.join(vlib.OUT, PID, "lockedges")
+    os.makedirs(d, exist_ok=True)
+    try:
+        exe = vlib.build_go("c13locks")
+    except CheckError as e:
+        res["error"] = "extractor does not build: " + e.detail[-800:]
+        return res
+    tmpv, js = os.path.join(d, "LockEdges.v"), os.path.join(d, "edges.json")
+    rc, o = vlib.sh([exe, "-repo", vlib.REPO, "-v", tmpv, "-json", js], timeout=120)
+    if rc != 0:
+        res["error"] = "extractor failed: " + o[-800:]
+        return res
+    j = json.load(open(js))
+    res.update(edges=len(j["edges"]), functions=j["functions"], type_errors_ignored=j["type_errors_ignored"],
+               unmapped_lock_classes=j["unmapped_lock_classes"])
+    wit = {(e["From"], e["To"]): e for e in j["edges"] + j["self_edges"]}
+    gen = os.path.join(vlib.COQ, "theories", "Gen", "LockEdges.v")
+    with vlib.Lock("coq"):
+        new = open(tmpv).read()
+        if not os.path.exists(gen) or open(gen).read() != new:
+            open(gen, "w").write(new)
+    try:
+        cmd, _ = vlib.coq_make(["theories/Gen/LockEdges.vo", "theories/Lifecycle/EdgeCheck.vo", "theories/Lifecycle/EdgeProofs.vo"])
+        res["cmd"] = cmd
+    except CheckError as e:
+        res["error"] = "Coq build: " + e.detail[-800:]
+        return res
+    open(os.path.join(d, "LockEdgesRun.v"), "w").write(RUN_V)
+    rc, o = vlib.sh(["timeout", "300", "coqc", "-Q", os.path.join(vlib.COQ, "theories"), "WG", "LockEdgesRun.v"], cwd=d)
+    res["coqc_rc"] = rc
+
+    def val(name):
+        m = re.search(r'(?:^|\n)' + name + r'\s*=\s*(.*?)\n\s*:\s', o, re.S)
+        return _pairs(m.group(1)) if m else None
+    for k, n in (("new", "new_inv"), ("new_self", "new_self"), ("gone", "gone"), ("model_extra", "model_extra"), ("code_extra", "code_extra")):
+        v = val(n)
+        if v is None:
+            res["error"] = "cannot read %s from coqc output: %s" % (n, o[-600:])
+            return res
+        res[k] = v
+
+    def describe(e):
+        w = wit.get(e, {}).get("W", {})
+        return {"edge": "%s -> %s" % (CLASS_NAMES[e[0]], CLASS_NAMES[e[1]]), "classes": list(e), "func": w.get("func"), "at": w.get("pos"),
+                "held_since": w.get("held_at"), "via": w.get("via"), "join": w.get("join", False)}
+    res["new_detail"] = [describe(e) for e in res["new"] + res["new_self"]]
+    for e, ks in KNOWN_SITES.items():
+        for f in sorted(set(wit.get(e, {}).get("Sites", [])) - ks):
+            res["new_detail"].append({"edge": "%s -> %s (listed inversion at a NEW site)" % (CLASS_NAMES[e[0]], CLASS_NAMES[e[1]]), "classes": list(e),
+                                      "func": f, "at": None, "held_since": None, "via": None, "join": False})
+    res["listed_inversions_seen"] = [describe(e) for e in [(5, 2), (6, 2), (6, 3), (6, 4), (6, 5), (7, 6), (6, 6)] if e in wit]
+    res["ok"] = rc == 0 and not res["new_detail"] and "Closed under the global context" in o
+    if not res["ok"] and not res["new_detail"]:
+        res["error"] = "per-run lock-edge theorems do not check: " + o[-800:]
+    return res
+
+
+def focus_ops(lk):
+    ops = []
+    for d in lk.get("new_detail", []):
+        txt = " ".join(str(d.get(k) or "") for k in ("func", "via"))
+        for pat, ks in FOCUS_MAP:
+            if pat in txt:
+                ops += [k for k in ks if k not in ops]
+    return ops or ["up", "down", "bindupdate", "set_add", "set_remove", "set_key", "get"]
 
 def _out(name):
     d = os.path.join(vlib.OUT, PID, name)
@@ -225,6 +342,7 @@ def check(tier, seed):
     race_seeds = [seed * 100 + 50 + i for i in range(2 if quick else 4)]
     jobs = []
     with ThreadPoolExecutor(max_workers=24) as ex:
+        lk_f = ex.submit(lock_edges)
         rep_f = {m: ex.submit(run_replay, m, exe) for m in REPLAYS}
         # thorough: longer histories (6 callers x ~28 ops) instead of ever more short rounds
         shape = [] if quick else ["-callers", "6", "-ops", "28"]
@@ -237,6 +355,7 @@ def check(tier, seed):
         if not quick:
             for s in (seed * 100 + 90, seed * 100 + 91):
                 fam.append(ex.submit(run_stress, exe, s, 45, _out("family_%d" % s), False, 8, "family"))
+        lk = lk_f.result()
         replays = {m: f.result() for m, f in rep_f.items()}
         results = [j.result() for j in jobs]
         family = [j.result() for j in fam]
@@ -280,11 +399,30 @@ def check(tier, seed):
             v = dict(v)
             v["detail"] = "family run (excluded overlaps allowed): " + v["detail"]
             viols.append(v)
+    # ---- 5b. lock-order edges of the source: a new inversion breaks an obligation -> directed search
+    directed = []
+    if not lk["ok"]:
+        what = "; ".join("%s in %s at %s%s" % (d["edge"], d["func"], d["at"], (" via " + d["via"]) if d["via"] else "") for d in lk.get("new_detail", [])) or (lk.get("error") or "?")
+        broken.append(CheckError("T.C13.lock-order-edges", "the source has a lock-order edge that is neither rank-increasing nor a listed inversion: " + what))
+        if lk.get("new_detail"):
+            fo = ",".join(focus_ops(lk))
+            ddur = 40 if quick else 150
+            vlib.log("new lock-order inversion in the source (%s): directed search with -focus %s" % (what, fo))
+            with ThreadPoolExecutor(max_workers=8) as ex:
+                dj = [ex.submit(run_stress, exe, seed * 100 + 70 + i, ddur, _out("directed_%d" % (seed * 100 + 70 + i)), False, 8,
+                                "stress" if i < 3 else "family-a", ["-focus", fo]) for i in range(5)]
+                directed = [j.result() for j in dj]
+            for r in directed:
+                for v in r["viol"]:
+                    v = dict(v)
+                    v["detail"] = "directed search after a new lock-order inversion in the source (%s): %s" % (what, v["detail"])
+                    v["lock_edges"] = lk["new_detail"]
+                    viols.append(v)
     # ---- 6. traces judged in Coq
     fails, st, nts = [], [0] * 10, {}
     if coq_ok:
         try:
-            fails, st, nts = judge_traces(results + family)
+            fails, st, nts = judge_traces(results + family + directed)
         except CheckError as e:
             broken.append(e)
     for f in fails:
@@ -313,11 +451,12 @@ def check(tier, seed):
         obl = [b.obligation for b in broken] + (["K.C13.bind-log-shape"] if mism else [])
         path = vlib.write_replay(PID, seed, {"property": PID, "kind": "obligation no longer checks; no failing input found", "obligations": obl,
                                              "details": [b.detail[-1500:] for b in broken], "first_mismatch": mism[0] if mism else None,
+                                             "new_lock_order_edges": lk.get("new_detail"), "directed_search": [{"seed": r["seed"], "mode": r["mode"], "rounds": len(r["cases"]), "rc": r["rc"]} for r in directed],
                                              "input": mism[0]["plan"] if mism else None}, tag="_nf")
         vlib.emit_violation(PID, path, no_input=True)
         nviol += 1
     # ---- 8. evidence
-    all_cases = [(r, i, c) for r in results + family for i, c in enumerate(r["cases"])]
+    all_cases = [(r, i, c) for r in results + family + directed for i, c in enumerate(r["cases"])]
     nontriv = []
     for r, i, c in all_cases:
         fl = nts.get(r["outdir"], [])
@@ -334,8 +473,16 @@ def check(tier, seed):
         k_broken.add({"hang": 1, "race": 2, "panic": 3, "census": 4, "deadlock-replay": 5, "scenario": 5, "trace": 0, "error": 3}.get(v["kind"], 0))
     if mism:
         k_broken.add(0)
+    theorems = theorems + RUN_THEOREMS
     obligations = len(theorems) + len(K_NAMES)
-    discharged = (0 if any(b.obligation.startswith(("T.", "G.")) for b in broken) else len(theorems)) + (len(K_NAMES) - len(k_broken))
+    t_broken = [b for b in broken if b.obligation.startswith(("T.", "G."))]
+    if not t_broken:
+        t_ok = len(theorems)
+    elif all(b.obligation == "T.C13.lock-order-edges" for b in t_broken):
+        t_ok = len(theorems) - len(RUN_THEOREMS)
+    else:
+        t_ok = 0
+    discharged = t_ok + (len(K_NAMES) - len(k_broken))
     names = ["events", "opens", "closes", "send_runs", "refused_runs", "up_calls", "down_calls", "quiet_windows", "close_returns", "nontrivial_rounds"]
     samples = []
     for r, i, c in all_cases[:2]:
@@ -353,24 +500,27 @@ def check(tier, seed):
         "obligations": obligations, "discharged": max(discharged, 0),
         "obligation_names": theorems + ["K.C13." + k for k in K_NAMES],
         "checker_cmd": " ; ".join(cmds + ["coqc -Q coq/theories WG theories/Props/C13.v", "coqc -Q coq/theories WG out/C13/*/cases_C13_*.v (vm_compute)",
-                                          "out/bin/c13 -mode f3a|f3b|f3c|upkey", "out/bin/c13[-race] -mode stress -seed S -dur %d" % dur]),
+                                          "out/bin/c13locks -repo <tree> -v coq/theories/Gen/LockEdges.v ; coqc out/C13/lockedges/LockEdgesRun.v", "out/bin/c13 -mode f3a|f3b|f3c|f3d|upkey|collide|close2|closefault|tunfail", "out/bin/c13[-race] -mode stress -seed S -dur %d" % dur]),
         "trusted_base": vlib.TRUSTED_BASE_COMMON + [
             "the lock programs and the automaton are hand-written from device.go/peer.go/uapi.go/send.go/receive.go/timers.go/noise-protocol.go; one peer; tied to the code by the replays (each model deadlock reproduces) and by the trace monitor",
             "Go race detector, runtime.Stack parsing (hang signatures, census), sim.Bind's own log and global sequence numbers",
-            "sequentially consistent atomic steps at the granularity written in the models"],
+            "sequentially consistent atomic steps at the granularity written in the models",
+            "the lock-edge extractor harness/cmd/c13locks (go/parser + go/types over package device of the tree under test): class mapping by owner type and field, lexical held sets, static call graph, joins via WaitGroup Wait/Done; its blind spots are listed in notes/C13.md"],
         "evaluations": len(all_cases), "distinct_nontrivial": vlib.distinct_count(nontriv), "rule": RULE, "samples": samples,
         "traces_validated_against_impl": len(all_cases) if coq_ok and not any(b.obligation.startswith("K.casefile") for b in broken) else 0,
         "trace_stats": dict(zip(names, st)), "op_counts": opsum,
         "stress_processes": [{"seed": r["seed"], "race": r["race"], "mode": r["mode"], "rounds": len(r["cases"]), "rc": r["rc"], "wall_s": round(r["wall"], 1),
-                              "harness_only_races": r.get("harness_only_races", 0)} for r in results + family],
+                              "harness_only_races": r.get("harness_only_races", 0)} for r in results + family + directed],
         "deadlock_replays": replay_summary, "family_runs": family_summary,
+        "lock_edges": {k: lk.get(k) for k in ("ok", "edges", "functions", "type_errors_ignored", "unmapped_lock_classes", "new_detail", "gone",
+                                               "model_extra", "code_extra", "listed_inversions_seen", "error", "cmd")},
         "peer_running_after_down_observations": {"rounds": len({(f["run"], f["case"]) for f in info6}), "events": len(info6),
                                                  "note": "informational (Coq: C13_peer_running_after_down_reachable; a Down on an already-down device does not stop a peer started by the handlePostConfig race); the property text does not demand stopped peers after Down"},
         "known_findings_seen": sorted(k for k in reported if k in known), "violation_keys": sorted(k for k in reported if k not in known),
         "repo_head": vlib.repo_head(), "broken_obligations": [b.obligation for b in broken] + (["K.C13.bind-log-shape"] if mism else []),
     }
     # case files of quiet runs are not kept (a thorough run writes ~1 GB of them)
-    for r in results + family:
+    for r in results + family + directed:
         if not r["viol"] and not any(f["run"] == r["outdir"] and f["kind"] != 3 for f in fails):
             shutil.rmtree(r["outdir"], ignore_errors=True)
     vlib.write_evidence(PID, tier, seed, cov, time.time() - t0, nviol,
